@@ -26,9 +26,9 @@ META = {
     'evaluation_counters': ['judged_attributes', 'judged_minimal'],
     'required_counters': ['judged_attributes', 'judged_minimal', 'judged_minimal_infimum',
                           'judged_empty_extent', 'judged_nonempty_bottom', 'judged_abandoned',
-                          'regenerated_via_lattice_call'],
+                          'regenerated_via_lattice_call', 'interleaved_enumerations'],
     'shards': {'quick': 16, 'thorough': 16},
-    'exhaustive': {'quick': 'all tables <= 3x3 x all concepts', 'thorough': 'all tables <= 3x3, 3x4, 4x3 x all concepts'},
+    'exhaustive': {'quick': 'all tables <= 3x3 x all concepts', 'thorough': 'all tables <= 3x3, 3x4, 4x3, 4x4 x all concepts'},
     'assumptions': ['intents larger than the bound are skipped (counted)'],
 }
 
@@ -192,3 +192,18 @@ def run_case(concepts, case, spec):
             for _ in range(rng.randint(0, 2)):
                 next(g, None)
             del g
+    # two enumerations of the same concept alive at once, and minimal() in between
+    for _ in range(4):
+        c = rng.choice(which)
+        it1 = call(c.attributes)
+        if it1 is RAISED:
+            continue
+        for _ in range(rng.randint(0, 2)):
+            next(it1, None)
+        call(c.minimal)
+        it2 = call(c.attributes)
+        if it2 is not RAISED:
+            call(list, it2)
+        call(list, it1)
+        call(c.minimal)
+        COL.count('interleaved_enumerations')
